@@ -59,3 +59,10 @@ json.dump({"comment": "reference emission templates of the serialisers (see rule
            "functions": {p: {"t": t, "show": emit.render(t)[:2000]} for p, (t, b) in sorted(em.items())}},
           open(os.path.join(HERE, "spec", "emit_templates.json"), "w"), indent=1)
 print("wrote", len(em), "emission templates")
+
+lay = grules.layouts(tms)
+json.dump({"comment": "reference layouts: per model struct the (tag, kind) sequence the parser reads; reviewed against "
+                      "the message documentation in the repository",
+           "structs": {k: [[t, kk] for t, kk, ty in v] for k, v in sorted(lay.items())}},
+          open(os.path.join(HERE, "spec", "layouts.json"), "w"), indent=1)
+print("wrote", len(lay), "layouts")
